@@ -86,10 +86,11 @@ func c17MakeErr(kind, who string) error {
 }
 
 var (
-	c17ErrSer  = errors.New("injected serializer failure")
-	c17ErrTx   = errors.New("injected transport failure")
-	c17ErrRead = errors.New("injected body read failure")
-	c17ErrDec  = errors.New("injected decoder failure")
+	c17ErrSer    = errors.New("injected serializer failure")
+	c17ErrStream = errors.New("injected failure of the serializer's streaming reader")
+	c17ErrTx     = errors.New("injected transport failure")
+	c17ErrRead   = errors.New("injected body read failure")
+	c17ErrDec    = errors.New("injected decoder failure")
 )
 
 type c17Str string
@@ -188,14 +189,61 @@ func c17Header(h http.Header) string {
 	return strings.Join(parts, "+")
 }
 
-func c17BodyRecord(r *http.Request) string {
+// c17Stream is a streaming serializer output (deliberately not a *bytes.Reader / *bytes.Buffer / *strings.Reader): it delivers at
+// most two bytes per Read and, with failAfter >= 0, fails with a non-EOF error once that many bytes (or the whole body) are out.
+type c17Stream struct {
+	r         io.Reader
+	failAfter int
+	n         int
+}
+
+func (s *c17Stream) Read(p []byte) (int, error) {
+	if s.failAfter >= 0 && s.n >= s.failAfter {
+		return 0, c17ErrStream
+	}
+	if len(p) > 2 {
+		p = p[:2]
+	}
+	if s.failAfter >= 0 && len(p) > s.failAfter-s.n {
+		p = p[:s.failAfter-s.n]
+	}
+	k, err := s.r.Read(p)
+	s.n += k
+	if err == io.EOF && s.failAfter >= 0 {
+		return k, c17ErrStream
+	}
+	return k, err
+}
+
+func c17WrapStream(r io.Reader, fault string) io.Reader {
+	if r == nil {
+		return r
+	}
+	switch fault {
+	case "sstream":
+		return &c17Stream{r: r, failAfter: -1}
+	case "sstreamk":
+		return &c17Stream{r: r, failAfter: 3}
+	case "sstream0":
+		return &c17Stream{r: r, failAfter: 0}
+	}
+	return r
+}
+
+// c17BodyRecord reads the request body as a transport does while sending; a body that cannot be read to its end makes the
+// round trip fail (record: how many bytes had arrived).
+func c17BodyRecord(r *http.Request) (string, error) {
 	if r.Body == nil || r.Body == http.NoBody {
-		return "nil"
+		return "nil", nil
 	}
 	b, err := io.ReadAll(r.Body)
 	if err != nil {
-		return "unreadable"
+		return "sfail:" + strconv.Itoa(len(b)), err
 	}
+	return c17BodyRecordOf(r, b), nil
+}
+
+func c17BodyRecordOf(r *http.Request, b []byte) string {
 	cts := r.Header["Content-Type"]
 	for _, ct := range cts {
 		mt, params, err := mime.ParseMediaType(ct)
@@ -219,7 +267,11 @@ func c17BodyRecord(r *http.Request) string {
 
 func (s *c17Stub) RoundTrip(r *http.Request) (*http.Response, error) {
 	s.last = r
-	s.recs = append(s.recs, "["+hx(r.Method)+" "+hx(c17RawURL(r.URL))+" "+c17Header(r.Header)+" "+c17BodyRecord(r)+"]")
+	bodyRec, bodyErr := c17BodyRecord(r)
+	s.recs = append(s.recs, "["+hx(r.Method)+" "+hx(c17RawURL(r.URL))+" "+c17Header(r.Header)+" "+bodyRec+"]")
+	if bodyErr != nil {
+		return nil, fmt.Errorf("http: error reading the request body: %w", bodyErr)
+	}
 	if strings.HasPrefix(s.fault, "tx") {
 		s.txErr = c17MakeErr(strings.TrimPrefix(s.fault, "tx"), "transport")
 		return nil, s.txErr
@@ -345,6 +397,8 @@ func c17ErrClass(err error, txErr error) string {
 		return "nil"
 	case errors.Is(err, c17ErrSer):
 		return "ser"
+	case errors.Is(err, c17ErrStream):
+		return "stream"
 	case errors.Is(err, c17ErrTx), txErr != nil && errors.Is(err, txErr):
 		return "tx"
 	case errors.Is(err, c17ErrRead):
@@ -381,13 +435,15 @@ func c17Run(line string) string {
 		if stub.fault == "ser" {
 			return nil, c17ErrSer
 		}
-		return network.JSONBodySerializer(body)
+		r, err := network.JSONBodySerializer(body)
+		return c17WrapStream(r, stub.fault), err
 	}
 	mpSer := func(form *network.MultipartForm) (io.Reader, string, error) {
 		if stub.fault == "ser" {
 			return nil, "", c17ErrSer
 		}
-		return network.GeneralMultipartSerializer(form)
+		r, ct, err := network.GeneralMultipartSerializer(form)
+		return c17WrapStream(r, stub.fault), ct, err
 	}
 	api.RequestSerializerForJSON = jsonSer
 	api.RequestSerializerForMultipart = mpSer
@@ -404,6 +460,10 @@ func c17Run(line string) string {
 
 	var noBody network.APINoBody[c17Target]
 	var hasBody network.APIHasBody[*c17Body, c17Target]
+	// the same constructor instantiated for other body types T (the body VALUE decides which one `call` uses)
+	var hasInts network.APIHasBody[[]int, c17Target]
+	var hasDict network.APIHasBody[map[string]int, c17Target]
+	var hasVal network.APIHasBody[c17Body, c17Target]
 	var multi network.APIMultipart[c17Target]
 	switch cfg["ctor"] {
 	case "Get":
@@ -412,10 +472,19 @@ func c17Run(line string) string {
 		noBody = network.APIMakeDelete[c17Target](api, tmpl)
 	case "PostJSONBody":
 		hasBody = network.APIMakePostJSONBody[*c17Body, c17Target](api, tmpl)
+		hasInts = network.APIMakePostJSONBody[[]int, c17Target](api, tmpl)
+		hasDict = network.APIMakePostJSONBody[map[string]int, c17Target](api, tmpl)
+		hasVal = network.APIMakePostJSONBody[c17Body, c17Target](api, tmpl)
 	case "PutJSONBody":
 		hasBody = network.APIMakePutJSONBody[*c17Body, c17Target](api, tmpl)
+		hasInts = network.APIMakePutJSONBody[[]int, c17Target](api, tmpl)
+		hasDict = network.APIMakePutJSONBody[map[string]int, c17Target](api, tmpl)
+		hasVal = network.APIMakePutJSONBody[c17Body, c17Target](api, tmpl)
 	case "PatchJSONBody":
 		hasBody = network.APIMakePatchJSONBody[*c17Body, c17Target](api, tmpl)
+		hasInts = network.APIMakePatchJSONBody[[]int, c17Target](api, tmpl)
+		hasDict = network.APIMakePatchJSONBody[map[string]int, c17Target](api, tmpl)
+		hasVal = network.APIMakePatchJSONBody[c17Body, c17Target](api, tmpl)
 	case "PostMultipartBody":
 		multi = network.APIMakePostMultipartBody[c17Target](api, tmpl)
 	case "PutMultipartBody":
@@ -426,6 +495,9 @@ func c17Run(line string) string {
 		noBody = network.APIMakeDoNewRequest[c17Target](api, method, tmpl)
 	case "DoBody":
 		hasBody = network.APIMakeDoNewRequestWithBodySerializer[*c17Body, c17Target](api, method, tmpl, ct, jsonSer)
+		hasInts = network.APIMakeDoNewRequestWithBodySerializer[[]int, c17Target](api, method, tmpl, ct, jsonSer)
+		hasDict = network.APIMakeDoNewRequestWithBodySerializer[map[string]int, c17Target](api, method, tmpl, ct, jsonSer)
+		hasVal = network.APIMakeDoNewRequestWithBodySerializer[c17Body, c17Target](api, method, tmpl, ct, jsonSer)
 	case "DoMP":
 		multi = network.APIMakeDoNewRequestWithMultipartSerializer[c17Target](api, method, tmpl, mpSer)
 	default:
@@ -448,6 +520,20 @@ func c17Run(line string) string {
 			switch {
 			case noBody != nil:
 				m = noBody(params, target)
+			case hasBody != nil && f[2] == "vsn":
+				m = hasInts(params, []int(nil), target)
+			case hasBody != nil && f[2] == "vse":
+				m = hasInts(params, []int{}, target)
+			case hasBody != nil && f[2] == "vsv":
+				m = hasInts(params, []int{1, 2}, target)
+			case hasBody != nil && f[2] == "vmn":
+				m = hasDict(params, map[string]int(nil), target)
+			case hasBody != nil && f[2] == "vme":
+				m = hasDict(params, map[string]int{}, target)
+			case hasBody != nil && f[2] == "vmv":
+				m = hasDict(params, map[string]int{"a": 1}, target)
+			case hasBody != nil && f[2] == "vz":
+				m = hasVal(params, c17Body{}, target)
 			case hasBody != nil:
 				var b *c17Body
 				if strings.HasPrefix(f[2], "j") {
@@ -517,7 +603,8 @@ func c17Run(line string) string {
 
 var c17Ctors = []string{"Get", "Delete", "PostJSONBody", "PutJSONBody", "PatchJSONBody", "PostMultipartBody", "PutMultipartBody",
 	"PatchMultipartBody", "Do", "DoBody", "DoMP"}
-var c17Faults = []string{"none", "ser", "tx", "read", "dec", "dect", "txtemp", "txtimeout", "txwrap", "txdl", "txreset", "txetimedout", "txurl", "readmid"}
+var c17BodyVals = []string{"vsn", "vse", "vsv", "vmn", "vme", "vmv", "vz"}
+var c17Faults = []string{"sstream", "sstreamk", "sstream0", "none", "ser", "tx", "read", "dec", "dect", "txtemp", "txtimeout", "txwrap", "txdl", "txreset", "txetimedout", "txurl", "readmid"}
 var c17RespKinds = []string{"empty", "ws", "null", "obj0", "garbage", "arr", "bad"}
 var c17Statuses = []string{"", "", "@200", "@201", "@204", "@304", "@400", "@401", "@404", "@429", "@500", "@503"}
 var c17Bases = []string{"http://stub.test", "http://stub.test/api", "http://stub.test:8080/v1/"}
@@ -614,6 +701,9 @@ func c17GenBody(rng *rand.Rand, kind int) string {
 		return "nil"
 	}
 	if kind == 1 {
+		if rng.Intn(4) == 0 {
+			return c17BodyVals[rng.Intn(len(c17BodyVals))]
+		}
 		return "j" + hx(c17Words[rng.Intn(len(c17Words))]) + ":" + strconv.Itoa(rng.Intn(200)-50)
 	}
 	n := rng.Intn(4)
@@ -718,6 +808,25 @@ func c17Gen(tier string, rng *rand.Rand, emit func(string)) map[string]interface
 			}
 		}
 	}
+	// 1c. bounded-exhaustive: every body-carrying constructor x every body VALUE (nil pointer, struct, nil / empty / filled slice and map,
+	// zero struct value; forms) x serializer behaviour (plain, error, streaming reader that works / breaks after 3 bytes / at once)
+	for _, ctor := range c17Ctors {
+		kind := c17Kind(ctor)
+		if kind == 0 {
+			continue
+		}
+		bodies := append([]string{"nil", "j" + hx("hi") + ":3"}, c17BodyVals...)
+		if kind == 2 {
+			bodies = []string{"nil", "f-", "f" + hx("f") + "=" + hx("v1") + "," + hx("f") + "=" + hx("v2")}
+		}
+		for _, b := range bodies {
+			for _, f := range []string{"none", "ser", "sstream", "sstreamk", "sstream0"} {
+				emit(c17Head(c17Bases[0], "nil", ctor, "POST", "application/json", "b/{id}") + "call " + hx("id") + "=i1 " + b +
+					" ; eval 0 " + f + " ok" + hx("v") + ":1 ; sent ; eval 0 none ok" + hx("w") + ":2 ; sent")
+				exhaustive++
+			}
+		}
+	}
 	// 2. directed: points outside the URL law's side conditions where the result does not depend on map order (<= 1 key)
 	for _, d := range [][2]string{{"{a}/{b}", hx("a") + "=s" + hx("{b}")}, {"{a{b}c}", hx("b") + "=s" + hx("x")}, {"{a}b}", hx("a") + "=s" + hx("{")},
 		{"{{a}}", hx("a") + "=s" + hx("a")}, {"{a", hx("a") + "=s" + hx("1")}, {"{a}{a}", hx("a") + "=s" + hx("{a}")}, {"x{}y", hx("") + "=s" + hx("E")},
@@ -772,7 +881,7 @@ func c17Gen(tier string, rng *rand.Rand, emit func(string)) map[string]interface
 		count("ctor." + ctor)
 		emit(c17Head(c17Bases[rng.Intn(len(c17Bases))], c17Headers[rng.Intn(len(c17Headers))], ctor, m, ct, tmpl) + strings.Join(ops, " ; "))
 	}
-	return map[string]interface{}{"exhaustive": false, "exhaustive_scope": "11 constructors x 14 faults (serializer, 8 transport error kinds incl. net.Error Temporary/Timeout, read at once / mid-body, decoder) x 0..2 evaluations x 6 default headers x body/nil body; 11 constructors x 9 response-body kinds (incl. a 5 kB one) x 5 status codes x 3 decoder behaviours",
+	return map[string]interface{}{"exhaustive": false, "exhaustive_scope": "11 constructors x 17 faults (serializer error, streaming serializer reader working / breaking, 8 transport error kinds incl. net.Error Temporary/Timeout, read at once / mid-body, decoder) x 0..2 evaluations x 6 default headers x body/nil body; 11 constructors x 9 response-body kinds (incl. a 5 kB one) x 5 status codes x 3 decoder behaviours; 9 body-carrying constructors x 9 body values (nil pointer, struct, nil/empty/filled slice and map, zero struct) x 5 serializer behaviours",
 		"exhaustive_cases": exhaustive, "random_cases": nRandom, "random_distribution": stats,
 		"value_alphabet": fmt.Sprintf("%d values incl. URL-tricky ones, %d keys, %d literal chunks, 0..4 placeholders", len(c17Vals), len(c17Keys), len(c17Lits))}
 }
